@@ -13,13 +13,28 @@ import (
 func safely(c *Ctx, what string, f func()) (v *Violation) {
 	c.opSteps = 0
 	defer func() {
-		if r := recover(); r != nil {
+		r := recover()
+		steps := c.opSteps
+		gp, gn := c.afterCall()
+		dl := c.deadlocked
+		c.deadlocked = false
+		if r != nil {
 			if _, ok := r.(stepLimit); ok {
-				v = &Violation{Clause: c.Prop + ".nontermination/" + what, Msg: fmt.Sprintf("%s did not terminate within the step bound (%d yields in this call)", what, c.opSteps)}
+				v = &Violation{Clause: c.Prop + ".nontermination/" + what, Msg: fmt.Sprintf("%s did not terminate within the step bound (%d yields in this call)", what, steps)}
+				if dl {
+					v.Msg = fmt.Sprintf("%s deadlocked: the caller and every goroutine it started wait for one another (after %d yields in this call)", what, steps)
+				}
 				c.opSteps = 0
 				return
 			}
 			v = &Violation{Clause: c.Prop + ".panic/" + what, Msg: fmt.Sprintf("%s panicked: %v", what, r)}
+			return
+		}
+		if gp != "" {
+			v = &Violation{Clause: c.Prop + ".panic/" + what, Msg: fmt.Sprintf("a goroutine started by %s panicked (this ends the caller's process): %s", what, gp)}
+		} else if gn {
+			v = &Violation{Clause: c.Prop + ".nontermination/" + what, Msg: fmt.Sprintf("a goroutine started by %s did not terminate within the step bound, or waits in a deadlock with its caller", what)}
+			c.opSteps = 0
 		}
 	}()
 	f()
